@@ -46,12 +46,47 @@ def slot(q, bs, ty):
                 (Err(_), Ok(v2)) => format!("MISMATCH quantity rejects but storage type accepts {{}}", sh(&v2)),
             }}
         }}
+        "tser" => {{
+            // the token-level format: floats travel by bit pattern (NaN, infinities, -0.0 included)
+            let v = p(a[1]);
+            let q = Q {{ dimension: PhantomData, units: PhantomData, value: v.clone() }};
+            let tq = tokfmt::to_tok(&q); let tv = tokfmt::to_tok(&v);
+            let same = match (&tq, &tv) {{ (Ok(x), Ok(y)) => x == y, (Err(_), Err(_)) => true, _ => false }};
+            let rt = match &tq {{ Ok(t) => match (tokfmt::from_tok::<Q>(t.clone()), tokfmt::from_tok::<V>(t.clone())) {{
+                (Ok(q2), Ok(v2)) => sh(&q2.value) == sh(&v2) && sh(&v2) == sh(&v), (Err(_), Err(_)) => true, _ => false }}, Err(_) => true }};
+            format!("{{}}{{}} {{}}", b(same), b(rt), match &tq {{ Ok(t) => tokfmt::show(t), Err(_) => "ERR".to_string() }})
+        }}
+        "tde" => {{
+            match tokfmt::parse(a[1]) {{
+                None => "BADDOC".to_string(),
+                Some(t) => match (tokfmt::from_tok::<Q>(t.clone()), tokfmt::from_tok::<V>(t)) {{
+                    (Ok(q2), Ok(v2)) => format!("ok {{}} {{}}", sh(&q2.value), sh(&v2)),
+                    (Err(_), Err(_)) => "err err".to_string(),
+                    (Ok(q2), Err(_)) => format!("MISMATCH quantity accepted {{}} but storage type rejects", sh(&q2.value)),
+                    (Err(_), Ok(v2)) => format!("MISMATCH quantity rejects but storage type accepts {{}}", sh(&v2)),
+                }},
+            }}
+        }}
         _ => "BADOP".to_string(),
     }}"""
 
 
 DOCS = ["1", "1.5", "-2", "0", "null", "\"1\"", "[1,2]", "{\"value\":1}", "{}", "true", "1e400", "18446744073709551616", "-9223372036854775809",
         "[1,[2]]", "[-1,[7,1]]", "[3,4]", "[[1,[1]],[1,[2]]]", "[1.5,2.5]", " 7 ", "7 m", "", "[", "2147483648", "-0.0", "NaN"]
+
+
+# token documents (harness/tokfmt.rs text form): every scalar token kind incl. the floats JSON cannot carry, options, newtypes,
+# sequences / tuples shaped like BigInt (sign, digits), Ratio (numer, denom; zero denominator), Complex (re, im), maps
+NAN64, INF64, NINF64, NZ64, F15 = "f64:7ff8000000000000", "f64:7ff0000000000000", "f64:fff0000000000000", "f64:8000000000000000", "f64:3ff8000000000000"
+TDOCS = [NAN64, INF64, NINF64, NZ64, F15, "f64:7ff0000000000001", "f64:0000000000000001", "f32:7fc00000", "f32:7f800000", "f32:80000000", "f32:3fc00000",
+         "i64:-5", "i64:7", "u64:18446744073709551615", "i8:-3", "u8:200", "i16:-300", "u16:65535", "i32:2147483647", "i32:-2147483648", "u32:4294967295",
+         "i128:170141183460469231731687303715884105727", "u128:5", "i64:9223372036854775807", "b1", "b0", "c:37", "s:31", "s:", "y:0102", "N", "U",
+         f"S({F15})", "S(i64:4)", f"W({F15})", "W(i32:4)", f"W({NAN64})", f"S({NAN64})",
+         "L[i64:1,i64:2]", "T[i64:1,i64:2]", "T[i8:-1,L[u32:7,u32:1]]", "T[i8:1,L[]]", "T[i8:0,L[]]", "T[i8:1,L[u32:5]]", "T[i8:2,L[u32:5]]",
+         "L[T[i8:1,L[u32:1]],T[i8:1,L[u32:2]]]", "T[T[i8:-1,L[u32:3]],T[i8:1,L[u32:4]]]", "T[T[i8:1,L[u32:3]],T[i8:0,L[]]]",
+         "T[i64:3,i64:4]", "T[i64:3,i64:0]", "T[i64:6,i64:4]", "T[i64:3,i64:-4]", "L[i64:3,i64:4]",
+         f"T[{F15},{F15}]", f"T[{NAN64},{F15}]", f"L[{F15},{NZ64}]", f"T[{INF64},{NAN64}]",
+         "M[s:76616c7565=i64:1]", "M[]", "L[]", "T[]", "T[i64:1]", "T[i64:1,i64:2,i64:3]", f"T[{F15}]"]
 
 
 def run(ctx):
@@ -61,7 +96,9 @@ def run(ctx):
     if not ctx.proof_gate(PROPS, MODULE, SUPPORT):
         ctx.violation({"kind": "proof", "obligation": f"{PROPS}: {getattr(ctx, 'proof_error', '')[-1500:]}"}, no_input=True)
     quick = ctx.tier == "quick"
-    h = Harness("c13", FEATURE_SETS["all"], prelude=B.prelude(BASES, TYPES), extra_deps='serde_json = "1.0"\nserde = "1.0"')
+    with open(C.VERIF + "/harness/tokfmt.rs") as f:
+        tok_rs = f.read()
+    h = Harness("c13", FEATURE_SETS["all"], prelude=B.prelude(BASES, TYPES) + "\n" + tok_rs, extra_deps='serde_json = "1.0"\nserde = "1.0"')
     cases, meta = [], {}
     for ty in TYPES:
         cls = STYPES[ty]["cls"]
@@ -81,9 +118,14 @@ def run(ctx):
                     f = lambda: FC.hexbits(FC.random_value(rng, "f64"), "f64")
                     vals = [f"{f()},{f()}" for _ in range(6 if quick else 60)]
                 for v in vals:
+                    for op in ("ser", "tser"):
+                        cid = f"s{len(cases)}"
+                        cases.append((cid, sl, [op, v]))
+                        meta[cid] = (op, ty, bs, qm, v, sl)
+                for dct in TDOCS:
                     cid = f"s{len(cases)}"
-                    cases.append((cid, sl, ["ser", v]))
-                    meta[cid] = ("ser", ty, bs, qm, v, sl)
+                    cases.append((cid, sl, ["tde", dct]))
+                    meta[cid] = ("tde", ty, bs, qm, dct, sl)
                 for dct in DOCS:
                     cid = f"s{len(cases)}"
                     cases.append((cid, sl, ["de", hexs(dct)]))
@@ -98,15 +140,22 @@ def run(ctx):
     bad = []
     hist, distinct = {}, set()
     accepted = 0
+    tokens_seen = set()
     for cid, sl, args in cases:
         op, ty, bs, qm, v, _ = meta[cid]
         got = impl.get(cid)
         hist[f"{op}/{ty}"] = hist.get(f"{op}/{ty}", 0) + 1
         distinct.add((op, ty, bs, qm, v))
-        if got in (None, "PANIC", "BADOP"):
+        if got in (None, "PANIC", "BADOP", "BADDOC"):
             bad.append((cid, f"harness answered {got}"))
             continue
-        if op == "ser":
+        if op == "tser":
+            flags, tk = got.split(" ")[0], got.split(" ", 1)[1]
+            for i, ch in enumerate(flags):
+                if ch != "1":
+                    bad.append((cid, ("token stream equals that of the stored value", "token round trip returns the quantity")[i] + f": fails; quantity serialized as {tk}"))
+            tokens_seen.add(tk.split(":")[0].split("[")[0].split("(")[0])
+        elif op == "ser":
             flags = got.split(" ")[0]
             names = ["JSON text equals the stored value's", "serde_json::Value equals the stored value's", "text round trip", "Value round trip"]
             for i, ch in enumerate(flags):
@@ -133,9 +182,11 @@ def run(ctx):
     cov["evaluations"] = len(cases)
     cov["distinct_nontrivial"] = len(distinct)
     cov["rule"] = ("serialize every value class of f64/f32/i32/i64/u64/BigInt/Rational64/BigRational/Complex64 quantities (6 dimensions incl. non-default kinds, 3 base-unit "
-                   "sets) to JSON text and to serde_json::Value and compare with the stored value's serialization; round trips in both formats; deserialize a "
-                   "catalogue of well- and ill-typed documents as quantity and as storage type and compare acceptance and value")
+                   "sets) to JSON text, to serde_json::Value and to the harness' own token-level format (harness/tokfmt.rs; floats by bit pattern, so NaN/inf/-0.0 travel) and compare with the stored value's serialization; round trips in both formats; deserialize a "
+                   "catalogue of well- and ill-typed JSON and token documents as quantity and as storage type and compare acceptance and value")
     cov["documents_accepted_by_both"] = accepted
+    cov["token_documents"] = len(TDOCS)
+    cov["token_kinds_emitted_by_storage_types"] = sorted(tokens_seen)
     cov["spec_failures"] = len(bad)
     cov["histogram"] = hist
     smp = ctx.rng.fork("samples").sample(cases, 6)
